@@ -46,6 +46,9 @@ var pathIdxRe = regexp.MustCompile(`/\d+$`)
 // groupOf maps an obligation name to its stable group: function/label/kind (no return ordinal, no path index).
 func groupOf(name string) string {
 	n := pathIdxRe.ReplaceAllString(name, "")
+	if strings.Contains(n, "/cover:") {
+		return n // covers are grouped per return site
+	}
 	n = retSiteRe.ReplaceAllString(n, "")
 	return n
 }
@@ -108,6 +111,11 @@ func prepare(prop, tier string, seed int) (*runCtx, error) {
 	for _, ct := range cs.ByFunc {
 		if ct.Pkg != "" && contractServes(ct, prop) {
 			need["./"+strings.TrimPrefix(ct.Pkg, vc.RepoModule+"/")] = true
+		}
+	}
+	if len(need) > 0 {
+		for _, p := range globalRefPackages(files) {
+			need[p] = true
 		}
 	}
 	var pats []string
@@ -247,6 +255,12 @@ func (rc *runCtx) groups() map[string]*groupStat {
 		}
 		if r.Obl.Bounded {
 			s.Bounded = true
+		}
+	}
+	// a cover group is fine when at least one of its paths is satisfiable
+	for _, s := range gs {
+		if s.Cover && s.OK > 0 {
+			s.Bad = nil
 		}
 	}
 	return gs
@@ -680,4 +694,26 @@ func replayCmd(args []string) int {
 	}
 	fmt.Print(string(data))
 	return 0
+}
+
+var gRefRe = regexp.MustCompile(`g\("([^"]+)\.[A-Za-z0-9_]+"\)`)
+
+// globalRefPackages lists the packages whose package-level constants are referenced by g("pkg.Name") in contract files.
+func globalRefPackages(files []string) []string {
+	seen := map[string]bool{}
+	for _, f := range files {
+		data, err := os.ReadFile(f)
+		if err != nil {
+			continue
+		}
+		for _, m := range gRefRe.FindAllStringSubmatch(string(data), -1) {
+			seen["./"+m[1]] = true
+		}
+	}
+	var out []string
+	for p := range seen {
+		out = append(out, p)
+	}
+	sort.Strings(out)
+	return out
 }
